@@ -4,7 +4,7 @@
    (corpus/C14/*.json). *)
 From Robsd Require Import Html.HtmlProofs.
 From RobsdGen Require Import Gen_Html.
-From Coq Require Import String.
+From Coq Require Import String Sorting.Sorted Sorting.Permutation.
 Local Open Scope string_scope.
 
 Definition hdr : string := "step,name,exit,duration,delta,log,user,time,skip
@@ -150,6 +150,108 @@ Proof.
   eexists. split; [vm_compute; reflexivity|].
   split; [vm_compute; repeat constructor; cbn; intuition discriminate|].
   vm_compute. reflexivity.
+Qed.
+
+(* ---- the equal-start-time defect does not depend on how qsort breaks ties ---- *)
+
+Lemma sorts_nil {A} (le : A -> A -> bool) f : sorts le f -> f [] = [].
+Proof. intros H. destruct (H []) as [Hp _]. now apply Permutation_nil in Hp. Qed.
+
+Lemma sorts_one {A} (le : A -> A -> bool) f x : sorts le f -> f [x] = [x].
+Proof. intros H. destruct (H [x]) as [Hp _]. now apply Permutation_length_1_inv in Hp. Qed.
+
+Lemma sorts_two {A} (le : A -> A -> bool) f x y : sorts le f ->
+  (f [x; y] = [x; y] /\ le x y = true) \/ (f [x; y] = [y; x] /\ le y x = true).
+Proof.
+  intros H. destruct (H [x; y]) as [Hp Hs].
+  apply Permutation_length_2_inv in Hp. destruct Hp as [E|E]; rewrite E in Hs |- *.
+  - left. split; [reflexivity|]. inversion Hs as [|? ? _ Hall]; subst. now inversion Hall.
+  - right. split; [reflexivity|]. inversion Hs as [|? ? _ Hall]; subst. now inversion Hall.
+Qed.
+
+(* two arches, equal start times, each with a suite of its own *)
+Definition w_tie2 : input :=
+  [mkarch (bs "a1")
+     [mkentry (bs "2022-10-25.1") true
+        (Some (bs (hdr ++ "1,x/1,0,1,0,l.log,root,1000,0
+2,end,0,100,0,,root,1010,0
+")))
+        (std_files ++ [(bs "l.log", log_pass)])%list];
+   mkarch (bs "a2")
+     [mkentry (bs "2022-10-25.1") true
+        (Some (bs (hdr ++ "1,x/2,0,1,0,l.log,root,1000,0
+2,end,0,100,0,,root,1010,0
+")))
+        (std_files ++ [(bs "l.log", log_pass)])%list]].
+
+Definition w_tie2_state : state :=
+  match parse_all exec_qsorts w_tie2 (mkstate [] [] []) with Some st => st | None => mkstate [] [] [] end.
+
+Lemma w_tie2_parse q : qsorts_ok q ->
+  parse_all q w_tie2 (mkstate [] [] []) = Some w_tie2_state.
+Proof.
+  intros [Hd _].
+  assert (Hw : forall e, accepted e = true -> walk_dirs q [e] = [e]).
+  { intros e He. unfold walk_dirs. cbn [filter]. rewrite He. now rewrite (sorts_one _ _ _ Hd). }
+  unfold w_tie2. cbn [parse_all a_entries a_arch]. rewrite !Hw by reflexivity. vm_compute. reflexivity.
+Qed.
+
+Lemma w_tie2_view q : qsorts_ok q ->
+  view (walk_dirs q) w_tie2 = view (walk_dirs exec_qsorts) w_tie2.
+Proof.
+  intros [Hd _].
+  assert (Hw : forall e, accepted e = true -> walk_dirs q [e] = [e]).
+  { intros e He. unfold walk_dirs. cbn [filter]. rewrite He. now rewrite (sorts_one _ _ _ Hd). }
+  unfold w_tie2. cbn [view a_entries a_arch]. rewrite !Hw by reflexivity. reflexivity.
+Qed.
+
+(* whatever qsort does with the two equal keys: the first column belongs to one
+   of the two invocations, and the row of the suite that ran only in the OTHER
+   one shows its run there *)
+Lemma tie_any_qsort q : qsorts_ok q ->
+  exists pg v I S st href,
+    run_html q w_tie2 = Some pg /\ view (walk_dirs q) w_tie2 = Some v /\
+    one_run_per_suite v /\ In I v /\
+    nth_error (p_cols pg) 0 = Some (render_column (rinv_of I)) /\
+    In (S, RowOk [Some (st, href)]) (p_rows pg) /\ ~ ran_in S I.
+Proof.
+  intros Hq. pose proof Hq as [_ [Hi [Hr Hs]]].
+  assert (Hrun : run_html q w_tie2 = Some (render q w_tie2_state)).
+  { unfold run_html. change w_tie2 with (hd (mkarch [] []) w_tie2 :: tl w_tie2) at 1.
+    cbv beta iota. now rewrite (w_tie2_parse q Hq). }
+  rewrite Hrun, (w_tie2_view q Hq).
+  unfold render.
+  remember (st_invs w_tie2_state) as invs eqn:Ei. vm_compute in Ei.
+  remember (st_suites w_tie2_state) as ss eqn:Es. vm_compute in Es.
+  remember (st_tree w_tie2_state) as tr eqn:Et. clear Et.
+  subst invs ss.
+  unfold sort_suites. cbn [filter s_fail s_name Nat.ltb Nat.leb negb andb].
+  match goal with |- context [prefixb nonregress_prefix ?n] =>
+    change (prefixb nonregress_prefix n) with false end.
+  match goal with |- context [prefixb nonregress_prefix ?n] =>
+    change (prefixb nonregress_prefix n) with false end.
+  cbn [negb andb]. rewrite (sorts_nil _ _ Hs). cbn [app].
+  match goal with |- context [qs_suites q [?a; ?b]] =>
+    destruct (sorts_two _ _ a b Hs) as [[E _]|[_ E]]; [rewrite E|vm_compute in E; discriminate] end.
+  unfold render_suite. cbn [app].
+  match goal with |- context [map ?f [?a; ?b]] => change (map f [a; b]) with [f a; f b] end.
+  cbv beta. cbn [s_name s_runs]. rewrite !(sorts_one _ _ _ Hr).
+  match goal with |- context [qs_invs q [?a; ?b]] =>
+    destruct (sorts_two _ _ a b Hi) as [[E' _]|[E' _]]; rewrite E'; clear E E' end.
+  - do 2 eexists. exists (match view (walk_dirs exec_qsorts) w_tie2 with Some (x :: _) => x | _ => mksinv [] [] 0%Z 0%Z None false None None [] [] end).
+    exists (bs "x/2"). do 2 eexists.
+    split; [reflexivity|]. split; [vm_compute; reflexivity|].
+    split. { intros I [<-|[<-|[]]]; vm_compute; repeat constructor; cbn; intuition discriminate. }
+    split; [vm_compute; left; reflexivity|].
+    split; [vm_compute; reflexivity|].
+    split; [vm_compute; right; left; reflexivity|]. vm_compute; intuition discriminate.
+  - do 2 eexists. exists (match view (walk_dirs exec_qsorts) w_tie2 with Some (_ :: x :: _) => x | _ => mksinv [] [] 0%Z 0%Z None false None None [] [] end).
+    exists (bs "x/1"). do 2 eexists.
+    split; [reflexivity|]. split; [vm_compute; reflexivity|].
+    split. { intros I [<-|[<-|[]]]; vm_compute; repeat constructor; cbn; intuition discriminate. }
+    split; [vm_compute; right; left; reflexivity|].
+    split; [vm_compute; reflexivity|].
+    split; [vm_compute; left; reflexivity|]. vm_compute; intuition discriminate.
 Qed.
 
 (* ---- which form the source has now (gen/Gen_Html.v), and what follows ---- *)
